@@ -1,7 +1,7 @@
 #!/bin/bash
 # usage: tools/try_seed.sh <patch.diff> <check id> [tier]   -- run a check against /repo HEAD + patch in a scratch worktree
 # (scratch worktree lives under /tmp and is removed afterwards; /repo itself is never touched)
-patch="$1"; id="$2"; tier="${3:-quick}"
+patch="$(realpath "$1")"; id="$2"; tier="${3:-quick}"
 wt=$(mktemp -d /tmp/mutwt.XXXXXX)
 git -C /repo worktree add --detach "$wt" HEAD >/dev/null 2>&1 || { echo "worktree failed"; exit 3; }
 if ! git -C "$wt" apply "$patch" 2>/dev/null; then
